@@ -73,6 +73,7 @@ type opIn struct {
 	K   string      `json:"k,omitempty"`
 	F   string      `json:"f,omitempty"`
 	V   interface{} `json:"v,omitempty"`   // scalar (string | integer | null) or list of scalars
+	Cap int         `json:"cap,omitempty"` // iso: spare capacity of the []any handed in (a caller's scratch buffer, e.g. buf[:0])
 	Old interface{} `json:"old,omitempty"` // CAS expected value
 	TTL int64       `json:"ttl,omitempty"` // model milliseconds
 	N   int64       `json:"n,omitempty"`   // IncrBy amount
@@ -204,8 +205,15 @@ func apply(st kv, o opIn, scale int64) obs { return applyEx(st, o, scale, nil) }
 
 func applyEx(st kv, o opIn, scale int64, io *ioRec) (r obs) {
 	keepIn := func(v any) any {
-		if l, ok := v.([]any); ok && io != nil {
-			io.in = l
+		if l, ok := v.([]any); ok {
+			if o.Cap > 0 { // the caller hands in a slice of its own buffer, with room behind it
+				nl := make([]any, len(l), len(l)+o.Cap)
+				copy(nl, l)
+				l, v = nl, nl
+			}
+			if io != nil {
+				io.in = l
+			}
 		}
 		return v
 	}
@@ -1430,6 +1438,7 @@ func kindOf(v any) string {
 func scribble(v any, mark string) {
 	switch x := v.(type) {
 	case []any:
+		x = x[:cap(x)] // the whole buffer the caller owns, spare capacity included (what its own append would write)
 		for i := range x {
 			x[i] = mark
 		}
@@ -1492,12 +1501,18 @@ func runIso(c caseIn) *caseOut {
 		}
 	}
 	var kept []retained
+	type reuse struct {
+		v    any
+		mark string
+	}
+	var reused []reuse
 	keep := func(i int, op string, io *ioRec) {
 		if !io.hasRet {
 			return
 		}
 		if c.MutRet && kindOf(io.ret) != "scalar" {
 			scribble(io.ret, "MUTR") // the caller overwrites what it got: the store must not notice
+			reused = append(reused, reuse{io.ret, "MUTR"})
 			return
 		}
 		kept = append(kept, retained{i, op, kindOf(io.ret), io.ret, canon(pj(op, obs{"v", proj(io.ret)}))})
@@ -1528,7 +1543,13 @@ func runIso(c caseIn) *caseOut {
 			keep(i, o.Op, io)
 			if c.MutIn && io.in != nil {
 				scribble(io.in, "MUTA") // the caller reuses the slice it handed in: the store must not notice
+				reused = append(reused, reuse{io.in, "MUTA"})
 			}
+		}
+		// the caller goes on using its buffers (arguments it handed in, answers it overwrote) after every later call too:
+		// an in-place append of the store into a shared backing array is then overwritten
+		for _, u := range reused {
+			scribble(u.v, u.mark)
 		}
 		got = pj(o.Op, got)
 		want := pj(o.Op, r.step(o))
@@ -1710,6 +1731,74 @@ func tornChild(c caseIn) tornResult {
 	return res
 }
 
+// incr: G goroutines x M IncrBy(k, 1) on ONE counter that already exists, on any backend.  Each increment is one atomic
+// operation (C13_linearizable_all_schedules; IncrBy is one critical section of memory.Storage, INCRBY one Redis command):
+// the returned values are pairwise distinct, they are exactly start+1 .. start+G*M, and that is the final value.
+// Runs in the child process like torn (an unlocked read-modify-write is also a Go data race).
+func incrChild(c caseIn) tornResult {
+	var st kv
+	switch c.Backend {
+	case "redis":
+		side := newRedisSide(100)
+		defer side.close()
+		st = side.st
+	case "hybrid":
+		h, done := newHybrid()
+		defer done()
+		st = h
+	default:
+		m := memory.New(context.Background())
+		defer m.Close()
+		st = m
+	}
+	g, m := c.Fill, c.Reads
+	k := "ctr"
+	start, err := st.IncrBy(k, 5) // the counter exists before the race
+	must(err)
+	rets := make([][]int64, g)
+	var wg sync.WaitGroup
+	var ready int32
+	for t := 0; t < g; t++ {
+		wg.Add(1)
+		go func(t int) {
+			defer wg.Done()
+			rets[t] = make([]int64, 0, m)
+			atomic.AddInt32(&ready, 1)
+			for atomic.LoadInt32(&ready) < int32(g) {
+			}
+			for i := 0; i < m; i++ {
+				v, err := st.IncrBy(k, 1)
+				if err != nil {
+					v = -1
+				}
+				rets[t] = append(rets[t], v)
+			}
+		}(t)
+	}
+	wg.Wait()
+	res := tornResult{OK: true, Reads: g * m, Writes: int64(g * m)}
+	seen := make(map[int64]bool, g*m)
+	dups, outOfRange := 0, 0
+	for _, r := range rets {
+		for _, v := range r {
+			if seen[v] {
+				dups++
+			}
+			seen[v] = true
+			if v <= start || v > start+int64(g*m) {
+				outOfRange++
+			}
+		}
+	}
+	final, err := st.IncrBy(k, 0)
+	must(err)
+	if dups > 0 || outOfRange > 0 || final != start+int64(g*m) {
+		res.OK = false
+		res.Msg = fmt.Sprintf("%d goroutines x %d IncrBy(ctr,1) on an existing counter (%s): %d returned values repeated, %d outside %d..%d, final value %d instead of %d — increments were lost", g, m, c.Backend, dups, outOfRange, start+1, start+int64(g*m), final, start+int64(g*m))
+	}
+	return res
+}
+
 func runTorn(raw []byte, c caseIn) *caseOut {
 	out := &caseOut{PropOK: true, FailAt: -1, ShapeEnd: -1}
 	exe, err := os.Executable()
@@ -1722,6 +1811,12 @@ func runTorn(raw []byte, c caseIn) *caseOut {
 	cmd.Stdout, cmd.Stderr = &so, &se
 	runErr := cmd.Run()
 	name := c.Reader + "-of-" + c.Kind
+	what := fmt.Sprintf("%s on a large %s racing in-place writers", c.Reader, c.Kind)
+	keyBase := "mem:reader-vs-in-place-writer:" + name
+	if c.Mode == "incr" {
+		what = fmt.Sprintf("%d goroutines x %d IncrBy on one existing counter (%s)", c.Fill, c.Reads, c.Backend)
+		keyBase = "incr:" + c.Backend + ":concurrent-increments"
+	}
 	if runErr != nil {
 		head := ""
 		for _, l := range bytes.Split(se.Bytes(), []byte("\n")) {
@@ -1738,8 +1833,8 @@ func runTorn(raw []byte, c caseIn) *caseOut {
 			}
 		}
 		out.PropOK = false
-		out.PropKey = "mem:reader-vs-in-place-writer:" + name + ":crash"
-		out.PropMsg = fmt.Sprintf("%s on a large %s racing in-place writers killed the process (%v): %s%s", c.Reader, c.Kind, runErr, head, frames)
+		out.PropKey = keyBase + ":crash"
+		out.PropMsg = fmt.Sprintf("%s killed the process (%v): %s%s", what, runErr, head, frames)
 		return out
 	}
 	var res tornResult
@@ -1750,8 +1845,13 @@ func runTorn(raw []byte, c caseIn) *caseOut {
 	}
 	if !res.OK {
 		out.PropOK = false
-		out.PropKey = "mem:reader-vs-in-place-writer:" + name + ":torn-snapshot"
-		out.PropMsg = res.Msg + " — not the value of the key at any instant"
+		if c.Mode == "incr" {
+			out.PropKey = keyBase + ":lost-update"
+			out.PropMsg = res.Msg
+		} else {
+			out.PropKey = keyBase + ":torn-snapshot"
+			out.PropMsg = res.Msg + " — not the value of the key at any instant"
+		}
 	}
 	return out
 }
@@ -1776,7 +1876,7 @@ func runCase(raw []byte) *caseOut {
 		return runUpgrade(c)
 	case "iso":
 		return runIso(c)
-	case "torn":
+	case "torn", "incr":
 		return runTorn(raw, c)
 	}
 	panic("unknown mode " + c.Mode)
@@ -1790,6 +1890,10 @@ func main() {
 	if len(os.Args) > 1 && os.Args[1] == "tornchild" {
 		var c caseIn
 		must(json.NewDecoder(os.Stdin).Decode(&c))
+		if c.Mode == "incr" {
+			must(json.NewEncoder(os.Stdout).Encode(incrChild(c)))
+			return
+		}
 		must(json.NewEncoder(os.Stdout).Encode(tornChild(c)))
 		return
 	}
@@ -1827,7 +1931,7 @@ func main() {
 				Mode string `json:"mode"`
 			}
 			_ = json.Unmarshal(lines[i], &probe)
-			if probe.Mode == "conc" || probe.Mode == "sweep" || probe.Mode == "torn" {
+			if probe.Mode == "conc" || probe.Mode == "sweep" || probe.Mode == "torn" || probe.Mode == "incr" {
 				concMu.Lock()
 				defer concMu.Unlock()
 			}
